@@ -38,6 +38,10 @@ func (f fastaRec) residues() []byte {
 }
 
 type c17Scenario struct {
+	// FailFirst, if >= 0, makes the writer process first write a decoy record
+	// to a sink that fails after that many bytes (the caller sees the error and
+	// carries on with the real stream on a healthy sink).
+	FailFirst *int        `json:"fail_first,omitempty"`
 	Recs      []fastaRec  `json:"recs,omitempty"`
 	GB        []recSource `json:"gb,omitempty"` // GenBank records converted to FASTA
 	CRLF      bool        `json:"crlf,omitempty"`
@@ -80,6 +84,10 @@ func genDesc(r *core.RNG) string {
 
 func genC17(r *core.RNG, tier string) *c17Scenario {
 	sc := &c17Scenario{CRLF: r.Chance(1, 4), Chunks: genChunks(r), AltChunks: genChunks(r)}
+	if r.Chance(1, 6) {
+		b := r.Intn(240)
+		sc.FailFirst = &b
+	}
 	if r.Chance(1, 4) {
 		n := r.Range(1, 2)
 		for i := 0; i < n; i++ {
@@ -188,6 +196,17 @@ func (x *c17Run) exec() {
 	var wants []want
 	var stream []byte
 	processBoundary()
+	if sc.FailFirst != nil {
+		// writer-side fault: a write that fails part way must not leak into later writes
+		sink := &simpipe.Writer{Limit: *sc.FailFirst}
+		decoy := seqio.Fasta{Desc: "decoy record that is lost", Data: bytes.Repeat([]byte("NNNNNNNNNN"), 20)}
+		func() {
+			defer func() { recover() }()
+			seqio.NewWriter(sink, seqio.FastaFile).WriteSeq(decoy)
+		}()
+		res.Faults["writer-sink-fails-after-B-bytes"]++
+		x.key(fmt.Sprintf("failed-write-first|accepted=%d", len(sink.Data)))
+	}
 	if len(sc.GB) > 0 {
 		// conversion GenBank -> FASTA
 		for i, s := range sc.GB {
@@ -389,7 +408,7 @@ func (C17) Runs(tier string) int {
 
 func (C17) RunSeed(tier string, seed uint64, idx int) *core.Result {
 	r := core.NewRNG(seed)
-	res := &core.Result{Seed: seed, Probes: map[string]int{"genbank_to_fasta_conversions": 0, "crlf_streams": 0}, Extended: map[string]int{}}
+	res := &core.Result{Seed: seed, Probes: map[string]int{"genbank_to_fasta_conversions": 0, "crlf_streams": 0}, Faults: map[string]int{}, Extended: map[string]int{}}
 	sc := genC17(r, tier)
 	core.Current, core.CurrentSig = sc, "c17"
 	x := &c17Run{sc: sc, res: res}
@@ -407,7 +426,7 @@ func (C17) Replay(raw json.RawMessage) ([]core.Violation, string, error) {
 	if err := json.Unmarshal(raw, &sc); err != nil {
 		return nil, "", err
 	}
-	res := &core.Result{Probes: map[string]int{}, Extended: map[string]int{}}
+	res := &core.Result{Probes: map[string]int{}, Faults: map[string]int{}, Extended: map[string]int{}}
 	x := &c17Run{sc: &sc, res: res}
 	x.exec()
 	if res.Harness != "" {
@@ -461,6 +480,11 @@ func (C17) Candidates(raw json.RawMessage) []json.RawMessage {
 	if sc.CRLF {
 		c := cl()
 		c.CRLF = false
+		emit(c)
+	}
+	if sc.FailFirst != nil {
+		c := cl()
+		c.FailFirst = nil
 		emit(c)
 	}
 	if len(sc.Chunks) > 0 {
